@@ -25,7 +25,8 @@ impl ModelState {
 }
 
 pub fn animator_timing_strategy() -> impl Strategy<Value = Timing> {
-    let rep = prop_oneof![5 => Just(Rep::None), 4 => (0u32..=3).prop_map(Rep::Times), 2 => Just(Rep::Infinite)];
+    // (rarely a repeat count around 2^24, where `count + 1` stops being representable in f32)
+    let rep = prop_oneof![15 => Just(Rep::None), 12 => (0u32..=3).prop_map(Rep::Times), 6 => Just(Rep::Infinite), 1 => prop::sample::select(vec![(1u32 << 24) - 1, 1 << 24, (1 << 24) + 1, (1 << 25) + 3]).prop_map(Rep::Times)];
     let dy = (0u32..=4, rep.clone(), any::<bool>()).prop_flat_map(|(j, repeat, reverse)| {
         let den = (1u32 << j) as f32;
         ((1u32..=64).prop_map(move |m| m as f32 / den), prop_oneof![3 => Just(0.0f32), 2 => (0u32..=48).prop_map(move |n| n as f32 / den)])
